@@ -81,7 +81,7 @@ type Changes struct {
 
 	Format          string
 	Source          string
-	Binaries        []string          `control:"Binary" delim:" "`
+	Binaries        []string          `control:"Binary" delim:" " strip:"\n\r\t "`
 	Architectures   []dependency.Arch `control:"Architecture"`
 	Version         version.Version
 	Origin          string
